@@ -3,10 +3,13 @@ open Model
 open Util
 open Trace
 
-type result = Ok_ | Diff of string | Skip
+(* Diff = model and implementation disagree (broken tie); Viol = a property oracle evaluated on the
+   implementation's trace failed: (kind, detail) *)
+type result = Ok_ | Diff of string | Skip | Viol of string * string
 
 let units : (string * (case -> result)) list ref = ref []
 let register l = units := !units @ l
+let commands : (string * (string -> unit)) list ref = ref []
 
 let state c lab = try Some (List.assoc lab c.states) with Not_found -> None
 let ftokens (st : tokstate array) : ftoken list =
